@@ -1,5 +1,6 @@
 import BarterModel.Lemmas.Engine
 import BarterModel.Lemmas.Review1Engine
+import BarterModel.Lemmas.KernelsAgree.SendRequestsSM
 /-!
 # C03 — Order requests: sent ⇒ delivered once and in flight; refused/failed ⇒ neither
 
@@ -1054,5 +1055,28 @@ theorem process_failed_not_delivered (e : Eng) (ev : Event) (algoC : List Cancel
 
 example : Audit.failedReqs (process demo (.command (.sendOpenRequests [o0, o1])) [] [] (fun _ => false)).2
     = [(.opn o1, .terminated)] := by decide +kernel
+
+/-- **Tie to the source by translation: `send_request` / `send_requests`.** `SendRequests::{send_requests, send_request}` for
+`Engine`, `SendRequestsOutput::{new, is_empty, unrecoverable_errors}`, `SendCancelsAndOpensOutput::{new, is_empty,
+unrecoverable_errors}` (barter/src/engine/action/send_requests.rs), `EngineError` / `RecoverableEngineError` /
+`UnrecoverableEngineError` (engine/error.rs), `ExecutionRequest` (execution/request.rs) and the traits `ExecutionTxMap`
+(engine/execution_tx.rs), `Tx`, `Unrecoverable` (barter-integration) as records of their methods are regenerated from the
+current source by `tools/rust2lean_sm.py` on every run (`Generated/Machines4.lean`, group `send_requests`). The
+transmitter map is an ABSTRACT parameter: `find` gives the link or an `UnrecoverableEngineError`, `send` a result — a
+`&self` trait method is read as a function of its arguments, so the delivery into the channel (the model's `log`) is the
+transmitter's own untranslated effect and the result of one send does not depend on the sends before it within the call
+(the model's own assumption about a link: `linkResult`). For ALL engines, maps, transmitters and requests, no hypothesis:
+`send_request` is `find`, then `send` of the converted request, `Ok` ⇒ `Ok`, an `is_unrecoverable` error ⇒
+`Unrecoverable(ExecutionChannelTerminated)`, any other ⇒ `Recoverable(ExecutionChannelUnhealthy)`, a failed `find` ⇒ that
+error wrapped (message texts not modelled); `send_requests` is the ORDER-PRESERVING PARTITION of the requests by
+`send_request` (`sent` / `errors` as `NoneOneOrMany::from(Vec)`) — the shape of the model's `sendRequests`
+(`send_requests_partition` is about it), whichever way the source spells it (iterator chain + `partition_result`, or a
+`for` loop pushing to two vectors); under the instantiation hypothesis `LinksAgree` (the outcome of `send_request` is the
+model's `linkResult` at the request's exchange) it IS the model's `SendOut`; `unrecoverable_errors()` collects the
+unrecoverable errors in order and is `None` exactly when the model's `fatal` is false. The statement is that of
+`KernelsAgree.SendRequestsSM.send_requests_agree` (Lemmas/KernelsAgree/SendRequestsSM.lean). -/
+theorem send_requests_agree_with_source :
+    type_of% BarterModel.KernelsAgree.SendRequestsSM.send_requests_agree :=
+  BarterModel.KernelsAgree.SendRequestsSM.send_requests_agree
 
 end BarterModel.Props.C03
